@@ -221,9 +221,11 @@ FinalAgrees ==
               /\ ino[ns[p]].m # -1 => ent(p).m = ino[ns[p]].m
 
 (* C01 *)
+(* an entry whose own removal was made to fail (second injected fault) necessarily remains: it is not held against the operation *)
+Excuse == IF hdr = <<>> THEN {} ELSE SeqToSet(hdr.excuse)
 CleanFailure ==
   Judge("c01") /\ End.outcome # "ok" =>
-    /\ Dom(ns) = Dom(ns0) /\ dirs = dirs0
+    /\ Dom(ns0) \subseteq Dom(ns) /\ (Dom(ns) \ Dom(ns0)) \subseteq Excuse /\ dirs = dirs0
     /\ \A p \in Dom(ns0) : Same(p)
 
 (* C01 for multi-output operations: inputs and pre-existing files untouched, extra entries allowed only as listed complete outputs *)
